@@ -93,6 +93,25 @@ theorem judgeTable_sound (t : Table) (regs : List (Nat × Ref)) (model : Nat →
     TWF t ∧ (∀ p ∈ regs, Valid t p.2 ∧ treeOf t p.2 = model p.1) ∧
     (∀ p ∈ regs, ∀ q ∈ regs, (p.2 = q.2 ↔ ∀ s, s ∈ sets (model p.1) ↔ s ∈ sets (model q.1))) := judge_sound h
 
+/-! ### garbage collection (`ZddArena::gc`, `gc_caches_only`) -/
+
+/-- the arena invariant: `TWF` table and every entry of the four persistent caches correct w.r.t. `treeOf` -/
+theorem arena_invariant_initial : Arena.OK {} := Arena.ok_empty
+
+/-- **Garbage collection returns handles that denote exactly the families the live handles denoted before**;
+it cannot panic or diverge (`some`), the compacted table is well-formed, and all four caches are empty
+(so no entry can refer to an id of the old table). -/
+theorem gc_preserves (s : Arena) (h : TWF s.table) (live : List Ref) (hl : ∀ r ∈ live, Valid s.table r) :
+    ∃ s' roots, s.gc live = some (s', roots) ∧ s'.OK ∧ roots.length = live.length ∧
+      (∀ p ∈ live.zip roots, Valid s'.table p.2 ∧ treeOf s'.table p.2 = treeOf s.table p.1) ∧
+      s'.ucache = [] ∧ s'.icache = [] ∧ s'.dcache = [] ∧ s'.ccache = [] := gc_spec h hl
+
+/-- `gc_caches_only` keeps the table (hence every handle and its family) and the invariant -/
+theorem gc_caches_only_preserves (s : Arena) (h : s.OK) :
+    (s.gcCachesOnly).OK ∧ (s.gcCachesOnly).table = s.table ∧
+      (s.gcCachesOnly).ucache = [] ∧ (s.gcCachesOnly).icache = [] ∧ (s.gcCachesOnly).dcache = [] ∧
+      (s.gcCachesOnly).ccache = [] := gcCachesOnly_spec h
+
 /-- non-vacuity: a three-node table ({{1},{0,1}} and {{1}}) is well-formed and accepted by the judge -/
 example : TWF #[⟨1, .E, .B⟩, ⟨0, .N 0, .N 0⟩] ∧
     judgeTable #[⟨1, .E, .B⟩, ⟨0, .N 0, .N 0⟩] [(0, .N 1), (1, .N 0)]
